@@ -45,6 +45,6 @@ rc_d0, out_d0 = run("cd /repo && /venv/bin/python %s" % os.path.join(dst, "demo.
 meta["demo_without_change_exit"] = rc_d0
 meta["caught"] = any(c["exit"] == 1 for c in meta.get("checks_with_change", {}).values())
 json.dump(meta, open(os.path.join(dst, "meta.json"), "w"), indent=1)
-print(json.dumps({k_: meta[k_] for k_ in ("property", "seed", "applied", "tests_with_change", "demo_with_change_exit", "demo_without_change_exit", "caught")}, indent=0))
+print(json.dumps({k_: meta.get(k_) for k_ in ("property", "seed", "applied", "tests_with_change", "demo_with_change_exit", "demo_without_change_exit", "caught")}, indent=0))
 for c, v in meta.get("checks_with_change", {}).items():
     print(" ", c, "exit", v["exit"], "violations", v["violations"], v["first_obligations"][:3])
